@@ -112,7 +112,9 @@ Section Pass.
         assert (Hc' : forall y, In y graphs -> count y < S k) by (intros y Hy; apply Hc; right; exact Hy).
         pose proof (Hc g (or_introl eq_refl)) as Hcg.
         match goal with |- context [if ?c then _ else _] => destruct c eqn:E end.
-        + apply Nat.eqb_eq in E.
+        + assert (E0 : count g = 0)
+            by (first [apply Nat.eqb_eq in E; exact E | apply Nat.ltb_lt in E; lia | apply Nat.leb_le in E; lia]).
+          clear E. rename E0 into E.
           destruct (IHg (results ++ [g]) pruned HI' Hc') as [r' [p' [F [S1 [N1 [Z1 C1]]]]]].
           exists (g :: r'), p'. rewrite F. rewrite <- app_assoc. cbn [app].
           split; [reflexivity|]. split; [|split; [|split]].
@@ -120,7 +122,9 @@ Section Pass.
           * intros _ Hnil. apply app_eq_nil in Hnil. destruct Hnil as [_ Hnil]. discriminate.
           * exact Z1.
           * constructor; [split; assumption | exact C1].
-        + apply Nat.eqb_neq in E.
+        + assert (E0 : count g <> 0)
+            by (first [apply Nat.eqb_neq in E; exact E | apply Nat.ltb_ge in E; lia | apply Nat.leb_gt in E; lia]).
+          clear E. rename E0 into E.
           destruct (inner_fold (replace g) results pruned) as [r [p [F0 [S0 [N0 [Z0 C0]]]]]].
           { intros x Hx. split; [apply (H_inv g x Ig E Hx) | pose proof (H_dec g x Ig E Hx); lia]. }
           rewrite F0.
